@@ -41,7 +41,9 @@ MANIFEST = {
              "exhaustive part, 11 blocks with two forks for the free-running part; <=7 transactions with several "
              "inputs/outputs (create->spend through first and later outputs, external outpoints); <=5 chain extensions, "
              "<=4 rolled-back blocks (reorganisations up to the start block, stale parent fetchable or not), <=2 injected "
-             "fetch failures, <=1 update (2 in free runs). Where the real rescan leaves the model's prediction the driver "
+             "fetch failures, <=1 update (2 in free runs); rescans with an empty watch list and rescans wholly before their "
+             "start time; in some universes a chain event and its notification are separate steps (duplicate / "
+             "unseen-block notifications after Subscribe). Where the real rescan leaves the model's prediction the driver "
              "lets it run on to quiescence so that the consequences are judged. The caller's start block is on the chain when the rescan "
              "initialises; EndBlock and DisableDisconnectedNtfns are not used. The 100 ms retry timer is real: a path on "
              "which it fires before the path asked for it is cut there and its history judged as observed. A panic of "
